@@ -151,7 +151,7 @@ pub fn run_unary<T: W>(n: usize, fs: FillSet, seed: u64) {
 
 /// var / std of a vector against the exact moments (`mu`, `var`).
 pub fn judge_var_std<T: W>(v: &Vec<T>, n: usize, mu: f64, var: f64, what: &dyn Fn() -> String) {
-    let cls = offset_class(mu, var.sqrt());
+    let cls = offset_class::<T>(mu, var.sqrt());
     if cls == "large-offset" {
         mc::count("var_lane_large_offset");
     }
